@@ -115,6 +115,7 @@ type Exch struct {
 	SeqRet   uint64
 	TInv     time.Duration
 	TRet     time.Duration
+	TRetRaw  time.Duration
 	Req      ReqSnap
 	ReqAfter ReqSnap
 	Returned bool
@@ -1008,6 +1009,7 @@ func (r *Run) exchange(g *kit.Gor, ci, oi int, name string, op *Op) {
 		}()
 		resp, err = rt.RoundTrip(req)
 	}()
+	e.TRetRaw = r.Sim.Now() // the instant RoundTrip returned (the grant to log it may come later)
 	g = r.Sim.Yield("ret")
 	if r.Sim.Aborted() {
 		return
